@@ -38,6 +38,7 @@ class C09(PropBase):
         # (4 096 rows, 64 KiB, 1 MiB, 4 MiB ...): one graph of about 9 000 rows per class probed instant by instant on
         # the thorough tier, and multi-megabyte round trips (implementation side only) on every tier
         yield bigio_case(('snap', False, 450000, False, 'plain'))
+        yield bigio_case(('span-file', False, 1050000, 1700000000))
         if tier == 'thorough':
             for directed in (False, True):
                 yield dict(directed=directed, removal=True, hist=[('add', 0, 1, 2, 0, 4700), ('add', 0, 2, 1, 4800, 9100)],
